@@ -87,6 +87,7 @@ class Prog:
         self.n_fp = 0
         self.single = False  # a single-precision array took part in this program
         self.trace = []
+        self._fresh = []  # operands created inside the current step: (slot, fingerprint at creation)
 
     # -- small helpers -----------------------------------------------------------------------
     def count(self, name, n=1):
@@ -140,7 +141,10 @@ class Prog:
             a._qdata = np.ascontiguousarray(a._qdata[perm])
             a._qdata_sorted = False
             self.count('qdata.unsorted_input')
-        return Slot(a, dense, labels, [SLeg.from_leg(l) for l in legs], qt, 'make')
+        slot = Slot(a, dense, labels, [SLeg.from_leg(l) for l in legs], qt, 'make')
+        if 'c03' in self.monitors:
+            self._fresh.append((slot, T.array_fingerprint(a)))
+        return slot
 
     def add_slot(self, slot):
         self.slots.append(slot)
@@ -207,6 +211,7 @@ class Prog:
         """Execute one op with all monitors.  Returns True if the op was applicable."""
         self.evict()
         alias = self.alias_pairs()
+        self._fresh = []
         snap = T.snapshot(self.slots, self.pool) if 'c03' in self.monitors else None
         nlog = len(self.log)
         nslots = len(self.slots)
@@ -266,6 +271,15 @@ class Prog:
             allowed = [s.arr for s in res.get('modified', [])] + list(res.get('replaced_arrays', [])) + shared_with_modified
             for kind, what in T.diff_snapshot(snap, allowed):
                 self.violation('%s:%s' % (name, kind), what)
+            allowed_ids = {id(a) for a in allowed}
+            for fslot, fp in self._fresh:
+                if id(fslot.arr) in allowed_ids:
+                    continue
+                now = T.array_fingerprint(fslot.arr)
+                if now != fp:
+                    names = ['values', 'dtype', 'shape', 'labels', 'qtotal', 'legs']
+                    ch = [names[i] for i in range(len(fp)) if fp[i] != now[i]]
+                    self.violation('%s:operand-mutated:%s' % (name, '+'.join(ch)), 'operand created for this call changed: %s' % ch)
             self.check_independence(name, res)
         for s in res.get('new', []):
             if s not in self.slots:
